@@ -65,6 +65,28 @@ CHECKS = {
         text='compute_recession_curve on a symbolic grid with symbolic ET and curvature: one integral per cell with the right limits, integrand at a symbolic probe point proved equal to Sy/(-ET - curvature*T), denominator negative, cumulative structure and mean.  simulate_recession / dump_simulated_recession on a symsql dataset with every ET cell symbolic: the ET handed to the curve is proved to be the average over all steps inside the recession intervals, curvature and mean conversions, rows highest-to-lowest in mm with measured (days) and simulated columns; both output forms; witness replays on the real CLI.',
         note='quad uninterpreted; reversal/refinement invariance and the zero-curvature identity follow from the proved per-cell structure by additivity/linearity of integrals (not re-proved); conductivity positive (C15).',
         ref='5/C18'),
+    'C06': dict(
+        text='Function level: crossing values T(h)+c_i with symbolic common curve T and shifts c_i through the real find_offsets on every connected overlap pattern (3x3 quick): o_i + c_i constant, aligned crossings equal the curve up to the origin.  Workflow level: the real command-line dispatch user_interface.main (load, classify, set-zeta-grid, rise, recession) with sqlite3 bound to symsql and the workflow modules loaded from the current sources, on planted records (recession piecewise linear on the lattice) whose storm intensities are tokens Sy x planted value with a symbolic specific yield: rise curve differences = Sy x level differences, aligned rise segments on one storage line, recession curve = planted curve up to the origin, aligned pieces coincide; 3 configurations quick (incl. a coarse grid where a storm crosses no level), 6 thorough.',
+        note='R-mode; level record exact on the lattice; set.pop order fixed in the workflow harness; curved truths and longer records are outside.',
+        ref='5/C06'),
+    'C13': dict(
+        text='The real classify -> set-zeta-grid -> rise / recession run on symsql on patterned records whose water levels are pattern + symbolic d in (0, 1/8) mm (or exactly on the pattern) and whose storm intensities are symbolic: control flow is fixed by the pattern, every stored number is a term.  Per crossing row: its interval is a classified interval of the right kind, its level is in the grid, a rise crossing satisfies the segment equation from zero depth at its initial level to the depth of its own storm at its final level, a recession crossing is the mean of the chord crossings of its own samples (NRA implication per row), only own levels are reported; the grid covers the observed range; views equal the table means; plus the table-level C05 oracle.  Configurations: grid steps 1, 1/2 (2 thorough), a reference level, a hole in the level record, a coarse grid with a rise crossing no level.',
+        note='R-mode; three concrete level patterns; brentq contract = root strictly inside with the chord equation as a lazy fact; single-interval levels are dropped by the code (C08 finding) -- rows present are checked.',
+        ref='5/C13'),
+    'C16': dict(
+        text='Transmissivity: PeatclsmTransmissivity with every parameter and the level symbolic (power function uninterpreted): value term equals Ksmacz0 pow(zeta_max - w/10, 1-alpha)/(100(alpha-1)), ValueError iff w/10 > zeta_max, array = scalar.  Specific yield (thorough tier): the real _construct_spline/get_Sy_soil/campbell_1d_az with symbolic sd, theta_s, b (normal cdf and pow uninterpreted), psi_s from six concrete values: all 201 tabulated values compared term by term with a transcription of the R reference (200- or 201-layer sum accepted), order-1 spline linear in between and constant beyond; a second object built in the same process with another sd must be right too.  Quick tier: transmissivity symbolically; the specific-yield table only as a numerical witness against the transcription.',
+        note='Rscript is absent: "reproduces the R reference" is checked against a transcription of the R file, numerically at the published parameters; the symbolic table costs ~10 min of z3 term construction per psi_s value and is therefore thorough-only.',
+        ref='5/C16'),
+    'C19': dict(
+        text='The real pestfiles generators and simulate commands run on a symsql dataset with symbolic interval offsets; formatting a term leaves a token (term, spec) in the text.  Obligations: declared counts = lines, parameter names = template placeholders (case-insensitive), filled template parses back to the parameters, k-th observation token is the k-th master-curve value with >= 17 significant digits, named e_k, the instruction file walks the simulator output and its k-th extraction is the value simulated at the level of the k-th observation (two neighbouring simulated values left unordered), both parameterisations, rise and curves.  The width of the instruction window is decided by a z3 integer model of the length of a printed double; the model is turned into a concrete double and replayed through the real yaml.dump (open known finding: window 22 characters, numbers up to 24).',
+        note='R-mode tokens; simulated numbers opaque; PEST itself outside.',
+        ref='5/C19'),
+    'C20': dict(
+        level='fault_enumeration',
+        text='The real user_interface.main runs each step (classify, set-zeta-grid, set-curvature, rise, recession) on a real SQLite file with sqlite3 rebound to a statement-counting proxy: for every statement index k of every step (executemany unrolled, commits included) and both fault kinds (raise OperationalError / kill the process in a forked child so that the next open goes through hot-journal recovery) the file afterwards equals its previous content or the complete result, and the step can be re-run to the complete result; all 12 orders of the independent steps (plus one failed attempt at every position, thorough) give the same final dump.  k, kind, step, order and position are engine choices whose ranges are closed by the solver.',
+        note='Data concrete (planted record with a hole in the level record and a rainless jump to the record maximum); durability below the SQLite API and load are outside.',
+        technique='fault enumeration on the real code and a real SQLite file, fault index / kind / order chosen and exhausted by the symx engine (z3 closes each range)',
+        ref='5/C20'),
     'C12': dict(
         text='regrid and build_head_mapping executed on symbolic series (2..3 samples quick, 4 thorough; |y|/step <= 2; x any strictly increasing reals; several concrete steps) with interp1d/brentq replaced by their contracts; every yielded item is proved to be the next expected level of its pair, between the two samples and on the chord; nothing missing, nothing extra.',
         note='R-mode; brentq contract = root strictly between the end points when signs differ; the nonlinear chord equation is kept as a lazy fact used only by obligations; numerical accuracy of scipy is outside (witness replays compare with the exact crossing to 1e-6).',
